@@ -478,11 +478,18 @@ Proof.
   - destruct a as [|c r]; [reflexivity|].
     unfold is_sign. unfold parse_int31_nonneg.
     destruct (Ascii.eqb c c_plus) eqn:Ep; cbn [orb].
-    + destruct (dec_of r) as [w|] eqn:Er; [exact I|].
+    + assert (Em : Ascii.eqb c c_minus = false).
+      { apply Ascii.eqb_eq in Ep. subst c. reflexivity. }
+      rewrite Em. cbn [andb].
+      destruct (dec_of r) as [w|] eqn:Er; [exact I|].
       apply parse_uint_none. intros v' Hv'. congruence.
     + destruct (Ascii.eqb c c_minus) eqn:Em.
-      * destruct (dec_of r) as [w|] eqn:Er; [exact I|].
-        rewrite parse_uint_none; [reflexivity|]. intros v' Hv'. congruence.
+      * destruct (dec_of r) as [w|] eqn:Er.
+        -- cbn [andb]. destruct (w =? 0) eqn:Ew; cbn [negb]; [exact I|].
+           destruct (parse_uint 2147483648 r) as [v'|] eqn:Ev; [|reflexivity].
+           apply parse_uint_spec in Ev as [Ev _]. rewrite Er in Ev. injection Ev as <-.
+           destruct w; [discriminate|reflexivity].
+        -- rewrite parse_uint_none; [reflexivity|]. intros v' Hv'. congruence.
       * apply parse_uint_none. intros v' Hv'. congruence.
 Qed.
 
